@@ -240,6 +240,15 @@ def split_files(text):
         a, b = spans[n]
         files[n + ".exp"] = main[a:b] + "\n"
         main = main[:a] + main[b:]
+    # the cut must leave well-formed pieces with the same schemas (the scanner of lib/mutate_exp.py is asked again)
+    got = []
+    for piece in [main] + list(files.values()):
+        sc2 = M.scan(piece)
+        if not sc2.ok:
+            return None
+        got += [x.name.lower() for x in sc2.schemas]
+    if sorted(got) != sorted(by_name):
+        return None
     return main, files
 
 
@@ -276,12 +285,18 @@ def run_multifile_case(rn, text, expect):
             low = texts[base].lower()
             if d.code:
                 for conv, arg in zip(d.code.get("slots", []), d.args or []):
-                    if conv == "%s" and arg and re.match(r"^[A-Za-z_][A-Za-z0-9_]*$", arg) and arg.lower() not in low \
+                    # (only names the generator chose - they start with zzq; other %s arguments may be words of the tool's own,
+                    # e.g. "... but x1 is function")
+                    if conv == "%s" and arg and re.match(r"^zzq[A-Za-z0-9_]*$", arg.lower()) and arg.lower() not in low \
                             and arg.lower() in text.lower():
                         probs.append(("multifile:attributed-to-a-file-that-does-not-contain-the-quoted-text",
                                       "%r is quoted under file %s, which does not contain it: %s" % (arg, base, d.raw[:200])))
         # (2b) the diagnostic the fault was built for is printed here too.  (The complete lists are NOT compared: a parse-time
         # error stops a single file at once, while in an imported file it lets the importing file go on to follow-up errors.)
+        syn = rn.table.codes.get("SYNTAX", {}).get("num")
+        if any(d.num == syn for d in diags) and not any(e["code"] == "SYNTAX" for e in expect):
+            # the pieces do not parse although the single file did: the cut is at fault, not the front end (counted by the caller)
+            return None
         probs += [("multifile:" + sg, dt) for sg, dt in check_expect(rn.table, diags, expect)]
         return probs, len(files) + 1
     finally:
